@@ -826,6 +826,10 @@ def run(ctx):
             res.count('valid.root=' + t)
             res.count('canon=%s' % ans['canon'])
             res.count('node-text-judged=%s' % (ans['canon'] and ans['complete'] and ans['fmtlaw']))
+            res.count('scaled-limits-on-grid=%s' % ans.get('limits'))
+            if ans.get('limits') and ans.get('cvalid') is False and ans['canon']:
+                res.disagreements.append({'case': c, 'model': 'Lemmas.C02.valid_clientOf: the cached value is valid for the rebuilt type',
+                                          'impl': 'validB cdt cval = false'})
             if ans.get('cvalid') is not None:
                 # hypothesis of client_cache_string_write: the cached value lies in the value set of the rebuilt type
                 res.count('client-value-valid-for-rebuilt-type=%s' % ans['cvalid'])
